@@ -20,7 +20,7 @@ from families import common
 SOURCES = ["drv_selfcal.c", "vt.c", "vt_alloc.c", "etermsim.c",
            "caleq_oracle.c"]
 EXIT_TIMEOUT = 94
-FIELDS = ["ty", "p", "k", "topo", "nu", "lim", "pt", "et", "me"]
+FIELDS = ["ty", "p", "k", "topo", "nu", "lim", "pt", "et", "me", "ko"]
 
 
 def mc(ctx, tier):
@@ -55,9 +55,10 @@ def table(ctx):
 
 
 def row_line(row):
-    return "%d %s %d %d %s %d %d %d %d %d\n" % (
+    return "%d %s %d %d %s %d %d %d %d %d %s\n" % (
         row["id"], row["ty"], row["p"], row.get("k", row["p"]), row["topo"],
-        row["nu"], row["lim"], row["pt"], row["et"], row["me"])
+        row["nu"], row["lim"], row["pt"], row["et"], row["me"],
+        row.get("ko", "use"))
 
 
 def sample(rows, n, seed):
@@ -67,7 +68,10 @@ def sample(rows, n, seed):
     rng = random.Random(seed)
     by = {}
     for r in rows:
-        by.setdefault((r["ty"], r["topo"], r["me"], r["p"], r["k"]),
+        # the kit order is part of the class where the kit is large enough
+        # for it to matter
+        ko = r["ko"] if r["topo"] == "KIT" else "-"
+        by.setdefault((r["ty"], r["topo"], r["me"], r["p"], r["k"], ko),
                       []).append(r)
     chosen = {}
     limits = sorted({r["lim"] for r in rows})
@@ -82,6 +86,11 @@ def sample(rows, n, seed):
         cands = [r for r in by[key] if r["lim"] == want] or by[key]
         r = rng.choice(cands)
         chosen[r["id"]] = r
+        if key[1] == "KIT":
+            # large kits: also the default limit and the largest one
+            for lim in (30, 100):
+                r = rng.choice([x for x in by[key] if x["lim"] == lim])
+                chosen[r["id"]] = r
     pool = [r for r in rows if r["id"] not in chosen]
     rng.shuffle(pool)
     for r in pool:
@@ -111,8 +120,10 @@ def _cls(cfg):
     dims = "p%s" % cfg.get("p")
     if cfg.get("k", cfg.get("p")) != cfg.get("p"):
         dims += "k%s" % cfg.get("k")
-    return "%s:%s:%s:me%s" % (cfg.get("ty"), cfg.get("topo"), dims,
-                              cfg.get("me"))
+    topo = cfg.get("topo")
+    if topo == "KIT":
+        topo = "KIT-%s" % cfg.get("ko", "use")
+    return "%s:%s:%s:me%s" % (cfg.get("ty"), topo, dims, cfg.get("me"))
 
 
 def issues_from_validation(ctx, res, label):
@@ -207,7 +218,7 @@ def run(ctx, exe, tier, seed, n=None, rows=None, timeout_s=None):
     """Returns (issues, stats)."""
     all_rows = table(ctx) if rows is None else rows
     if n is None:
-        n = 2400 if tier == "quick" else len(all_rows)
+        n = 2400 if tier == "quick" else min(len(all_rows), 60000)
     picked = sample(all_rows, n, seed)
     tpath = os.path.join(ctx.work, "selfcal-rows.txt")
     write_table(tpath, picked)
@@ -299,6 +310,7 @@ def replay(ctx, exe, path):
         raise vlib.MachineryError("no configuration in " + path)
     cfg.setdefault("id", row)
     cfg.setdefault("k", cfg["p"])
+    cfg.setdefault("ko", "use")
     tpath = os.path.join(ctx.work, "replay-rows.txt")
     with open(tpath, "w") as fp:
         for i in range(row):
